@@ -40,6 +40,8 @@ AsymEnc == UNION { { X(AsymKey(b, p, NONE, NONE), e @@ [extra |-> x]) : p \in {0
 OctMeta == { X(WithMeta(OctKey(n, "a", NONE, NONE), m, "HS256"), E0 @@ [extra |-> <<>>]) : n \in {32, 64}, m \in Meta }
 OctEnc == { X(OctKey(n, v, NONE, NONE), E0 @@ [extra |-> x]) : n \in OctLens, v \in {"a", "b"}, x \in ExtraFor("oct") }
           \cup { X(OctKey(48, "a", "HS384", "kx"), E0 @@ [extra |-> TypedExtras]) }
+          \* k written with '=' padding: the octets are the decoding of k, padding is not key material
+          \cup { X(OctKey(n, "a", NONE, NONE) @@ [kpad |-> 1], E0 @@ [extra |-> <<>>]) : n \in {1, 2, 31, 32, 34, 47, 64, 65} }
           \cup { X(OctKey(n, v, NONE, NONE), E0 @@ [extra |-> <<>>]) : n \in {32, 33, 64},
                   v \in {"a.end0a", "a.end00", "a.end20", "a.beg00", "a.begff", "a.end3d"} }
 \* key_ops: every operation alone, every pair, every set of seven, a repeated name, the reverse order
